@@ -84,7 +84,7 @@ def decide(prop, tier='quick', rlimit=None):
                 known_hits.append((kf, f))
             else:
                 violations.append(f)
-            failed_clauses.setdefault(f['fn'], set()).add(f['clause'])
+                failed_clauses.setdefault(f['fn'], set()).add(f['clause'])
         for f in mine:
             if f['external_body']:
                 continue
